@@ -19,6 +19,7 @@ THEOREMS = [
     "Cog.Sem.C13_refl_counterexample", "Cog.Sem.C13_symm_counterexample",
     "Cog.Sem.C13_trans_counterexample", "Cog.Sem.C13_enc_eq_implies_equals_counterexample",
     "Cog.Sem.C13_equals_implies_enc_eqv_counterexample",
+    "Cog.Sem.C13_enc_eq_implies_equals_counterexample_union",
 ]
 HARNESS_FILES = HARNESS_BASE + ["lab_*.go", "src_*.go", "c13_*.go"]
 PROPOSED = os.path.join(WORK, "proposed_findings_C13.json")
@@ -409,11 +410,17 @@ def main():
             y = run_stream(c, hb, "c13-equals", n=60, docs=24, seed=c.seed * 101 + k, maxdepth=4)
             if x is None:
                 x = y
+            else:  # accumulate the measured distribution over the batches
+                for sect in ("stats", "constructs", "doc_variants"):
+                    for key, val in (y.dist or {}).get(sect, {}).items():
+                        x.dist.setdefault(sect, {})[key] = x.dist.get(sect, {}).get(key, 0) + val
+                for key, val in y.n_unsup.items():
+                    x.n_unsup[key] = x.n_unsup.get(key, 0) + val
     c.cov["distribution"] = x.dist
     c.cov["model_unsupported"] = x.n_unsup
     st = (x.dist or {}).get("stats", {})
     c.oblige("lab: generated cases compiled and ran (cases:run > 0)", st.get("cases:run", 0) > 0, st)
-    c.oblige("pinned witnesses ran", st.get("kind:pinned", 0) >= 6 and st.get("cases:run", 0) >= 7, st)
+    c.oblige("pinned witnesses ran", st.get("kind:pinned", 0) >= 7 and st.get("cases:run", 0) >= 8, st)
     c.finish(cmd, rule,
              "schemas: generated Src terms rendered to JSON Schema / OpenAPI / CUE + 6 pinned witness schemas; per struct object "
              "groups of 2-3 documents (same, reordered, one-leaf mutants, presence, key-swapped maps, nil-vs-empty, "
